@@ -26,6 +26,9 @@ theorem inv_step (s : State) (i : Input) (h : Inv s) (ha : Allowed s i) : Inv (s
   | responderWrites sid response =>
     exact h.congr (fun _ => rfl) rfl (fun _ => rfl) (fun _ => rfl) rfl (fun _ hr => hr) rfl rfl rfl
       (Nat.le_refl _)
+  | clogged =>
+    exact h.congr (fun _ => rfl) rfl (fun _ => rfl) (fun _ => rfl) rfl (fun _ hr => hr) rfl rfl rfl
+      (Nat.le_succ _)
 
 theorem reach_inv (m : Option Nat) (s : State) (h : Reach m s) : Inv s := by
   induction h with
